@@ -20,7 +20,7 @@ from ..common import workdir, rm_workdir, seed, MachineryError
 
 INVS = ['StartsAndEnds', 'TotalEqualsBytes', 'DeclaredEqualsExtent', 'PadOnlyZeros', 'DataPaddingBitsZero',
         'EvenUpToEdition3', 'HonourRefusesShorter', 'HonourFillsLonger', 'ReaderConsumesExactly',
-        'ReaderNeverFailsOnWritten', 'ShortDeclaredIsError', 'ReaderStartsAtMessage', 'OverrideOnlyChangesVersion', 'Emit']
+        'ReaderNeverFailsOnWritten', 'ShortDeclaredIsError', 'TruncatedDataIsError', 'ReaderStartsAtMessage', 'OverrideOnlyChangesVersion', 'Emit']
 
 
 def lengths_of(msg):
@@ -89,6 +89,13 @@ def check_case(c):
         return None
     if d is None:
         return (('reader', 'refused', 'valid-message', feat), 'decoder raised %r on a well-formed message' % (err,))
+    if c['shrink'] == 5:
+        # a consistent message one octet shorter that still holds its data: it is its own span, lengths as declared
+        lead, trail = len(c['leading']), len(c['trailing'])
+        own = data[lead:len(data) - trail]
+        if d.serialized_bytes != own or d.length.value != len(own) or pyb.values_of(d, 0) != list(c['bits']):
+            return (('reader', 'truncated-pad', 'differs', feat), 'a message without its pad octet decodes to other bytes / length / values')
+        return None
     if d.serialized_bytes != want:
         return (('reader', 'serialized_bytes', 'differ', 'trailing' if c['trailing'] else 'no-trailing'),
                 'serialized_bytes has %d octets, the message %d' % (len(d.serialized_bytes), len(want)))
